@@ -30,6 +30,13 @@ def placements(tier):
         fs = [A2, B2, TRA]
         out.append((f'repeat-preamble:{c}', D(fs, repeat(cross('ABR', 'AR', [c]), [['MinimumTrials', 9]])),
                     D(fs, repeat(cross('ABR', 'AR'), [['MinimumTrials', 9], c]))))
+        # the constrained factor is itself a transition factor (its variables are numbered by applicable trials)
+        if c[2] == 'B' and c[0] != 'Pin':
+            cr = [c[0], c[1], 'S', None if c[3] is None else ('s0' if c[3] == 'b0' else 's1')]
+            fs = [A2, B2, TRA, {'name': 'S', 'window': {'kind': 'transition', 'factors': ['B']},
+                                'levels': [{'name': 's0', 'pred': ['same']}, {'name': 's1', 'pred': ['diff']}]}]
+            out.append((f'repeat-preamble-derived:{cr}', D(fs, repeat(cross('ABRS', 'AR', [cr]), [['MinimumTrials', 9]])),
+                        D(fs, repeat(cross('ABRS', 'AR'), [['MinimumTrials', 9], cr]))))
         # Merge in REPEAT mode: crossing of size 2 next to one of size 4 or 6
         fs = [A2, B2, C2]
         out.append((f'merge:{c}', D(fs, merge([cross('AB', 'A', [c]), cross('ABC', 'AC')])),
